@@ -32,10 +32,29 @@ class C11(EngineProp):
     FAULTS = True
     QUICK_N = 300
     THOROUGH_N = 15000
-    LEVEL_TEXT = "TODO"
-    LEVEL_NOTE = "TODO"
-    TECHNIQUE = "TODO"
-    RULE = "TODO"
+    LEVEL_TEXT = ("Coq theorems about the engine-core model for ALL operation sequences (faults, failing commands, Stop/Restart "
+                  "at any tick): in every reachable state the init/exec/finalize trace obeys the life-cycle discipline (a "
+                  "command is initialised only when no instance of it is live; exec only on an initialised, not yet "
+                  "finalized instance) and the live set IS the set of initialised instances the engine holds -- proved by "
+                  "an invariant preserved by each primitive of the engine step, where the UOD primitives carry the facts "
+                  "the code establishes (registry lookups) and those facts are derived in the decomposition proof. Local "
+                  "theorems: cancelling a request leaves its own instance disposed or cancelled and other requests' "
+                  "instances alone; a cancelled request without an instance is done. PARTIAL: the strict discipline also "
+                  "demands no re-initialisation of an id, no exec of a superseded (same/overlapping) older command, single "
+                  "finalization and nothing live at run end; these are checked by the strict Coq monitor on the real "
+                  "engine's calls, not proved.")
+    LEVEL_NOTE = ("Theorems are about coq/model/Eng.v. Tie: operation-by-operation correspondence with the real Engine incl. "
+                  "uod.command_instances and every init/exec/finalize call of instrumented UOD commands (CmdB and CmdC "
+                  "declared overlapping); the strict Coq monitor (mon11 true) runs on the real call stream and compares its "
+                  "live set with uod.command_instances after every operation. User-issued UOD commands complete in their "
+                  "first execution (button commands carry no arguments); long-running user-issued commands are outside "
+                  "the validated domain. The /repo fix (a cancelled request that has not started an instance is done) is "
+                  "mirrored in the model. No axioms.")
+    TECHNIQUE = "Coq proof (life-cycle invariant preserved by every guarded primitive of the engine step, lifted to all executions) + operation-by-operation correspondence with the real Engine + strict Coq monitor on the real init/exec/finalize calls"
+    RULE = ("UOD-heavy operation sequences of 8-45 operations: up to three method-issued UOD requests per tick over three "
+            "commands (two overlapping), durations 0-5, scripted failures, output writes; user-issued commands; Stop, "
+            "Restart, Pause, Hold at any tick; write faults 2%, interpreter errors 2%; non-trivial = at least three "
+            "instances initialised and a run end; distinct by canonical JSON")
 
     def gen_cases(self, rng, n, tier):
         return [gen_uod_case(rng) if rng.random() < 0.8 else gen_engine_case(rng, True) for _ in range(n)]
